@@ -75,12 +75,14 @@ uint8_t* vp_map(size_t n)
     return (uint8_t*)p;
 }
 void vp_unmap(uint8_t* p, size_t n) { if (p) sys3(91, (long)p, (long)((n + 4095) & ~(size_t)4095), 0); }
+void vp_readonly(uint8_t* page, size_t n, int on) { sys3(125, (long)page, (long)((n + 4095) & ~(size_t)4095), on ? 1 : 3); }   /* mprotect: a store then kills the process (reported as a signal) */
 uint8_t* vp_guard_end(size_t n) { return vp_map(n + 4096); }
 uint8_t* vp_guard_begin(size_t n) { return vp_map(n + 4096); }
 void vp_guard_free(uint8_t* p, size_t n) { (void)p; (void)n; }
 uint8_t* vp_heap(size_t n) { static uint8_t* cur; static size_t left; n = (n + 15) & ~(size_t)15; if (!n) n = 16; if (left < n) { size_t c = n > (1u << 20) ? n : (1u << 20); cur = vp_map(c); left = c; } uint8_t* p = cur; cur += n; left -= n; return p; }
 void vp_heap_free(uint8_t* p) { (void)p; }
 int vp_try(void (*fn)(void*), void* arg) { fn(arg); return 0; }
+int errno;
 void vp_watchdog_start(void) { }      /* the orchestrator limits the CPU time of this build's processes instead */
 void vp_curop(const char* a, const char* b, const char* c, uint64_t n) { (void)a; (void)b; (void)c; (void)n; }
 void vp_yield(uint64_t r) { (void)r; }
